@@ -65,6 +65,7 @@ SysC05 == [threads |-> <<Th(101, 1001, 1, 1), Th(102, 1001, 1, 1), Th(103, 1002,
                       Cpu(2, 0, 20, FALSE), Cpu(2, -1, -1, TRUE)>>,
            marks |-> <<>>, models |-> {"O"}]
 AlphaC05 == {E(t, m, <<>>) : t \in {1, 2, 3}, m \in {"OHp", "OHr", "OHe"}}
+            \cup {E(t, m, <<>>) : t \in {1, 2}, m \in {"OHc", "OHw"}}
             \cup {E(t, "OHx", <<c, 101, 7>>) : t \in {1, 2, 3}, c \in {0, 1, -1}}
             \cup {E(4, "OHx", <<0, 201, 7>>), E(4, "OHe", <<>>)}
             \cup {E(t, "OAs", <<c>>) : t \in {1, 3}, c \in {0, 1, -1, 7}}
